@@ -190,7 +190,9 @@ func defaultContentParameterDecoder(param *openapi3.Parameter, values []string) 
 		err = fmt.Errorf("parameter %q has no content schema", param.Name)
 		return
 	}
-	outSchema = mt.Schema.Value
+	if mt.Schema != nil {
+		outSchema = mt.Schema.Value
+	}
 
 	unmarshal := func(encoded string, paramSchema *openapi3.SchemaRef) (decoded any, err error) {
 		if err = json.Unmarshal([]byte(encoded), &decoded); err != nil {
@@ -207,10 +209,14 @@ func defaultContentParameterDecoder(param *openapi3.Parameter, values []string) 
 			return
 		}
 	} else {
+		var itemSchema *openapi3.SchemaRef
+		if outSchema != nil {
+			itemSchema = outSchema.Items
+		}
 		outArray := make([]any, 0, len(values))
 		for _, v := range values {
 			var item any
-			if item, err = unmarshal(v, outSchema.Items); err != nil {
+			if item, err = unmarshal(v, itemSchema); err != nil {
 				err = fmt.Errorf("error unmarshaling parameter %q", param.Name)
 				return
 			}
